@@ -18,6 +18,15 @@ CHECKS = {
  "C17": ("runtime descriptor monitor: complete walk of the live protoreflect descriptors of api/v3 against api/v3alpha, own proto3 parser vs embedded descriptors (self-tested on protoc output), and seeded gRPC round trips v3 client -> v3alpha server over bufconn",
          "Enumerates every v3 descriptor element (rpcs, http bindings, messages, fields, enums, values) and every declaration of both .proto files completely (exhaustive: true), and observes real wire exchanges in which every reachable v3 field/enum value/oneof arm is populated; resolver System constants compared with the enum.",
          "The proto3 declaration parser is validated at start-up against three protoc-generated descriptors; a construct it does not understand is inconclusive, never a pass.", "§6 C17"),
+ "C09": ("runtime law monitor: Union/Intersect results compared pointwise with the library's own matching of freshly parsed operands on boundary candidates; operand-order and span-order metamorphism",
+         "Exploration: for every generated pair the union/intersection laws, Empty() and order independence are evaluated on every bound of the operands and of the result (+-1 in each position, prerelease variants) and on random versions, in both release and prerelease-inclusive matching.",
+         "Oracle = the library's own Match on the operands; one recorded divergence (adjoining spans joined by canonicalisation admit the prereleases in the seam under interval matching) is identified by a reduction predicate.", "§6 C09"),
+ "C10": ("runtime law monitor: canonical string must parse, compare equal and be a fixed point; versions grouped by canonical string must compare equal",
+         "Exploration over generated and respelled version strings of nine systems (RubyGems release-only), Canon(true), Canon(false) and pypi.CanonVersion.",
+         "Wildcard patterns (1.x) are treated as non-versions.", "§6 C10"),
+ "C11": ("runtime round-trip monitor: Constraint -> Set.String() -> ParseSetConstraint, equality of print form and of prerelease-inclusive matching on boundary candidates",
+         "Exploration over generated constraints of Default, NPM, Cargo, Go and NuGet with forced coverage of multi-span sets, infinity components, prerelease bounds and the empty set.",
+         "Candidates are derived from the printed bounds; agreement elsewhere is not observed.", "§6 C11"),
 }
 NOT_YET = {}
 
